@@ -19,7 +19,35 @@ fn at<T>(r: Result<T, HpkeError>, stage: &'static str) -> R<T> {
     r.map_err(|e| (e, stage))
 }
 
+thread_local! {
+    /// byte offset (0..15) at which byte-aligned key objects are placed before they are handed to the library
+    pub static KEY_OFFSET: std::cell::Cell<usize> = const { std::cell::Cell::new(0) };
+}
+
+/// Hands `v` to `f` from an address that is `KEY_OFFSET` bytes past a 16-byte boundary. Only for types whose alignment is
+/// 1 (byte-array keys: X25519 public and encapsulated keys), where every address is a valid place for the object: code
+/// that looks at a key through wider loads must not depend on where the caller keeps it.
+fn placed<T, R>(v: T, f: impl FnOnce(&T) -> R) -> R {
+    let k = KEY_OFFSET.with(|c| c.get()) % 16;
+    if k == 0 || std::mem::align_of::<T>() != 1 {
+        return f(&v);
+    }
+    let mut buf = vec![0u8; std::mem::size_of::<T>() + 32];
+    let base = buf.as_mut_ptr() as usize;
+    let p = (((base + 15) & !15) + k) as *mut T;
+    // SAFETY: p..p+size_of::<T>() lies inside `buf`, T has alignment 1, the value is dropped in place before `buf`
+    unsafe {
+        p.write(v);
+        let r = f(&*p);
+        std::ptr::drop_in_place(p);
+        r
+    }
+}
+
 pub fn err_name(e: &HpkeError) -> String {
+    // every error the driver ever sees is also rendered the way an application would log it (Display, Debug):
+    // a formatter that panics on some payload shows up as a panic of the call that returned the error
+    let _ = std::hint::black_box(format!("{} {:?}", e, e));
     match e {
         HpkeError::MessageLimitReached => "MessageLimitReached".into(),
         HpkeError::OpenError => "OpenError".into(),
@@ -375,7 +403,7 @@ fn ss_out<M: Kem>(ss: SharedSecret<M>, scan: bool) -> (Vec<u8>, Option<KemScan>)
 
 impl<M: Kem + 'static> KemOps for Kx<M>
 where
-    M::PublicKey: 'static + Send + Sync,
+    M::PublicKey: 'static + Send + Sync + std::fmt::Debug,
     M::PrivateKey: Send + Sync,
     M::EncappedKey: Send + Sync,
 {
@@ -489,6 +517,10 @@ where
             HpkeError::EncapError,
             HpkeError::DecapError,
             HpkeError::IncorrectInputLength(65, 33),
+            HpkeError::IncorrectInputLength(33, 65),
+            HpkeError::IncorrectInputLength(0, 1),
+            HpkeError::IncorrectInputLength(32, usize::MAX),
+            HpkeError::IncorrectInputLength(usize::MAX, 0),
             HpkeError::InvalidPskBundle,
         ];
         all.iter().map(|e| format!("{}|{:?}", e, e)).collect()
@@ -521,6 +553,8 @@ where
         match kind {
             "pk" => {
                 let v = at(M::PublicKey::from_bytes(b), "")?;
+                // an application logging a remote key it has just parsed
+                let _ = std::hint::black_box(format!("{:?}", v));
                 let re = v.to_bytes().to_vec();
                 #[allow(clippy::eq_op)]
                 let eq = M::PublicKey::from_bytes(&re).map(|w| w == v && v == w && v.clone() == v && v == v).unwrap_or(false);
@@ -568,7 +602,7 @@ where
             )),
             None => None,
         };
-        let (ss, enc) = at(M::encap(&pkr, kp.as_ref().map(|(a, b)| (a, b)), rng), "")?;
+        let (ss, enc) = at(placed(pkr, |pkr| M::encap(pkr, kp.as_ref().map(|(a, b)| (a, b)), rng)), "")?;
         let (b, sc) = ss_out::<M>(ss, scan);
         Ok((b, enc.to_bytes().to_vec(), sc))
     }
@@ -585,7 +619,7 @@ where
             None => None,
         };
         let enc = at(M::EncappedKey::from_bytes(enc), "enc")?;
-        let ss = at(M::decap(&skr, pks.as_ref(), &enc), "")?;
+        let ss = at(placed(enc, |enc| M::decap(&skr, pks.as_ref(), enc)), "")?;
         Ok(ss_out::<M>(ss, scan))
     }
 }
@@ -683,14 +717,14 @@ where
     ) -> R<(Vec<u8>, Box<dyn CtxS>)> {
         let mode = mode_s::<M>(m)?;
         let pkr = at(M::PublicKey::from_bytes(pkr), "pkr")?;
-        let (enc, ctx) = at(hpke::setup_sender::<A, K, M, _>(&mode, &pkr, info, rng), "")?;
+        let (enc, ctx) = at(placed(pkr, |pkr| hpke::setup_sender::<A, K, M, _>(&mode, pkr, info, rng)), "")?;
         Ok((enc.to_bytes().to_vec(), Box::new(ctx)))
     }
     fn setup_r(&self, m: &ModeArgs, skr: &[u8], enc: &[u8], info: &[u8]) -> R<Box<dyn CtxR>> {
         let mode = mode_r::<M>(m)?;
         let skr = at(M::PrivateKey::from_bytes(skr), "skr")?;
         let enc = at(M::EncappedKey::from_bytes(enc), "enc")?;
-        let ctx = at(hpke::setup_receiver::<A, K, M>(&mode, &skr, &enc, info), "")?;
+        let ctx = at(placed(enc, |enc| hpke::setup_receiver::<A, K, M>(&mode, &skr, enc, info)), "")?;
         Ok(Box::new(ctx))
     }
     fn setup_r_par(&self, m: &ModeArgs, skr: &[u8], enc: &[u8], info: &[u8], threads: usize) -> R<Vec<Result<Vec<u8>, HpkeError>>> {
@@ -956,6 +990,10 @@ macro_rules! suite_row {
             (3, 0x7779) => Some(Box::new(Sx::<crate::probe::ProbeAead8, HkdfSha512, $kemty>(PhantomData)) as Box<dyn SuiteOps>),
             (1, 0x777A) => Some(Box::new(Sx::<crate::probe::ProbeAead13, HkdfSha256, $kemty>(PhantomData)) as Box<dyn SuiteOps>),
             (3, 0x777A) => Some(Box::new(Sx::<crate::probe::ProbeAead13, HkdfSha512, $kemty>(PhantomData)) as Box<dyn SuiteOps>),
+            (1, 0x777B) => Some(Box::new(Sx::<crate::probe::ProbeAeadK64, HkdfSha256, $kemty>(PhantomData)) as Box<dyn SuiteOps>),
+            (3, 0x777B) => Some(Box::new(Sx::<crate::probe::ProbeAeadK64, HkdfSha512, $kemty>(PhantomData)) as Box<dyn SuiteOps>),
+            (1, 0x777C) => Some(Box::new(Sx::<crate::probe::ProbeAeadSiv, HkdfSha256, $kemty>(PhantomData)) as Box<dyn SuiteOps>),
+            (3, 0x777C) => Some(Box::new(Sx::<crate::probe::ProbeAeadSiv, HkdfSha512, $kemty>(PhantomData)) as Box<dyn SuiteOps>),
             _ => None,
         }
     };
